@@ -81,7 +81,9 @@ func (i *Interceptors) NewSegment(val string) (*Segment, error) {
 		seg.Suffix = val[end+1:]
 		seg.Endpoint = val[len(val)-1] == endByte
 		seg.matcher = func(string) bool { return true }
-		seg.cleanName()
+		if err := seg.cleanName(); err != nil {
+			return nil, err
+		}
 		seg.calcAmbiguousLength()
 		return seg, nil
 	}
@@ -90,7 +92,9 @@ func (i *Interceptors) NewSegment(val string) (*Segment, error) {
 	if matcher, found := i.funcs[seg.rule]; found {
 		seg.Type = Interceptor
 		seg.Name = val[start+1 : separator]
-		seg.cleanName()
+		if err := seg.cleanName(); err != nil {
+			return nil, err
+		}
 		seg.Suffix = val[end+1:]
 		seg.Endpoint = val[len(val)-1] == endByte
 		seg.matcher = matcher
@@ -100,7 +104,9 @@ func (i *Interceptors) NewSegment(val string) (*Segment, error) {
 
 	seg.Type = Regexp
 	seg.Name = val[start+1 : separator]
-	seg.cleanName()
+	if err := seg.cleanName(); err != nil {
+		return nil, err
+	}
 	seg.Suffix = val[end+1:]
 	name := ":"
 	if !seg.ignoreName {
@@ -119,11 +125,16 @@ func (i *Interceptors) NewSegment(val string) (*Segment, error) {
 	return seg, nil
 }
 
-func (seg *Segment) cleanName() {
+// 去掉名称中表示忽略的 - 前缀，{-} 和 {-:rule} 与 {} 和 {:rule} 一样，属于没有名称的参数。
+func (seg *Segment) cleanName() error {
 	if seg.Name[0] == ignoreByte {
 		seg.ignoreName = true
 		seg.Name = seg.Name[1:]
 	}
+	if seg.Name == "" {
+		return fmt.Errorf("无效的语法：%s", seg.Value)
+	}
+	return nil
 }
 
 func (seg *Segment) calcAmbiguousLength() {
